@@ -198,7 +198,8 @@ IsoGen(g, h, keep, stubAny) ==
          LET a == g.el[lg[i]] b == h.el[lh[i]] IN
          /\ a.type = b.type /\ a.name = b.name /\ Len(a.attrs) = Len(b.attrs)
          /\ \A j \in 1..Len(a.attrs) : AttrIso(a.attrs[j], b.attrs[j], lg, lh, stubAny)
-    /\ \A i \in 1..Len(lg) : IF lg[i] \in keep THEN lh[i] = lg[i] ELSE lh[i] \notin SeqSet(lg)
+    \* an element whose UUID the encoding need not store keeps it or gets one that is nobody else's
+    /\ \A i \in 1..Len(lg) : lh[i] = lg[i] \/ (lg[i] \notin keep /\ lh[i] \notin SeqSet(lg))
 Iso(g, h, keep) == IsoGen(g, h, keep, FALSE)
 \* the same stub object must stay the same object: equal/unequal UUIDs stay so
 StubsOf(g) == {r \in UNION {SeqSet(ElemRefs(g, u)) : u \in Reach(g)} : r.k = "stub"}
